@@ -14,6 +14,8 @@ import (
 type c12Case struct {
 	Base string `json:"base"`
 	Ref  string `json:"ref"`
+	Via  string `json:"via,omitempty"`  // two hops: the root holds Via#/definitions/x, and that node of the document Via designates holds Ref
+	Elem string `json:"elem,omitempty"` // two hops: "" schema (ExpandSchemaWithBasePath) | parameter | response (ExpandSpec; Ref is the schema of the imported element)
 }
 
 // normURL: RFC 3986 section 6.2.2 normalisation of a document URL for comparison: scheme and host in
@@ -49,6 +51,9 @@ func c12RunCase(c *Ctx, raw []byte) string {
 }
 
 func c12Exec(c *Ctx, cs c12Case) (outcome string) {
+	if cs.Via != "" {
+		return c12ExecVia(c, cs)
+	}
 	var loads []string
 	loader := func(p string) (json.RawMessage, error) {
 		loads = append(loads, p)
@@ -60,17 +65,7 @@ func c12Exec(c *Ctx, cs c12Case) (outcome string) {
 		return "ref-rejected"
 	}
 	viol := func(class, exp, obs, detail string) {
-		segClass := "plain"
-		switch {
-		case strings.Contains(cs.Ref, "%2F"):
-			segClass = "encoded-slash"
-		case strings.Contains(cs.Ref, "%41"):
-			segClass = "encoded-unreserved"
-		case strings.Contains(cs.Ref, "%20"):
-			segClass = "encoded-space"
-		case strings.Contains(cs.Ref, "é"):
-			segClass = "non-ascii"
-		}
+		segClass := c12SegClass(cs.Ref)
 		c.Violate(Violation{Oracle: "rfc3986", Class: class, Expected: exp, Observed: obs, Detail: detail,
 			Features: map[string]string{"symptom": class, "segclass": segClass, "sigx": "seg=" + segClass}, Case: cs})
 		outcome = class
@@ -104,9 +99,93 @@ func c12Exec(c *Ctx, cs c12Case) (outcome string) {
 	return
 }
 
+func c12SegClass(ref string) string {
+	switch {
+	case strings.Contains(ref, "%2F"):
+		return "encoded-slash"
+	case strings.Contains(ref, "%25"):
+		return "encoded-percent"
+	case strings.Contains(ref, "%41"):
+		return "encoded-unreserved"
+	case strings.Contains(ref, "%20"):
+		return "encoded-space"
+	case strings.Contains(ref, "é"):
+		return "non-ascii"
+	}
+	return "plain"
+}
+
+// c12ExecVia: the reference under test sits in a document reached through another reference: it has to be
+// resolved against the URL of that document, not against the root's.
+func c12ExecVia(c *Ctx, cs c12Case) (outcome string) {
+	viol := func(class, exp, obs, detail string) {
+		c.Violate(Violation{Oracle: "rfc3986", Class: class, Expected: exp, Observed: obs, Detail: detail,
+			Features: map[string]string{"symptom": class, "segclass": c12SegClass(cs.Ref), "hop": "2", "sigx": "hop=2 seg=" + c12SegClass(cs.Ref)}, Case: cs})
+		outcome = class
+	}
+	defer func() {
+		if r := recover(); r != nil {
+			viol("panic", "", "", fmt.Sprint(r))
+		}
+	}()
+	outcome = "ok"
+	firstDoc, _, err := ResolveURL(cs.Base, cs.Via)
+	if err != nil {
+		return "oracle-rejects-ref"
+	}
+	wantDoc, _, err := ResolveURL(firstDoc, cs.Ref)
+	if err != nil {
+		return "oracle-rejects-ref"
+	}
+	if normURL(wantDoc) == normURL(firstDoc) || normURL(wantDoc) == normURL(cs.Base) {
+		return "second-hop-into-a-known-document"
+	}
+	inner, _ := json.Marshal(map[string]interface{}{"definitions": map[string]interface{}{"x": map[string]string{"$ref": cs.Ref}}, "title": "first"})
+	var loads []string
+	loader := func(p string) (json.RawMessage, error) {
+		loads = append(loads, p)
+		if normURL(p) == normURL(firstDoc) {
+			return inner, nil
+		}
+		return json.RawMessage(`{"definitions":{"x":{"title":"x"}},"title":"doc"}`), nil
+	}
+	switch cs.Elem {
+	case "":
+		b, _ := json.Marshal(map[string]string{"$ref": cs.Via + "#/definitions/x"})
+		var sch spec.Schema
+		if err := json.Unmarshal(b, &sch); err != nil {
+			return "ref-rejected"
+		}
+		_ = spec.ExpandSchemaWithBasePath(&sch, nil, &spec.ExpandOptions{RelativeBase: cs.Base, PathLoader: loader})
+	default:
+		inner, _ = json.Marshal(map[string]interface{}{"title": "first",
+			"parameters": map[string]interface{}{"x": map[string]interface{}{"name": "b", "in": "body", "schema": map[string]string{"$ref": cs.Ref}}},
+			"responses":  map[string]interface{}{"x": map[string]interface{}{"description": "d", "schema": map[string]string{"$ref": cs.Ref}}}})
+		b, _ := json.Marshal(map[string]interface{}{"swagger": "2.0", "info": map[string]string{"title": "t", "version": "1"}, "paths": map[string]interface{}{},
+			cs.Elem + "s": map[string]interface{}{"E": map[string]string{"$ref": cs.Via + "#/" + cs.Elem + "s/x"}}})
+		var sw spec.Swagger
+		if err := json.Unmarshal(b, &sw); err != nil {
+			return "ref-rejected"
+		}
+		_ = spec.ExpandSpec(&sw, &spec.ExpandOptions{RelativeBase: cs.Base, PathLoader: loader})
+	}
+	if len(loads) == 0 || normURL(loads[0]) != normURL(firstDoc) {
+		viol("wrong-document-requested", normURL(firstDoc), fmt.Sprint(loads), "first hop")
+		return
+	}
+	if len(loads) < 2 {
+		viol("no-document-requested", normURL(wantDoc), "", "second hop: the document holding the reference was loaded, the one it designates was not")
+		return
+	}
+	if normURL(loads[1]) != normURL(wantDoc) {
+		viol("wrong-document-requested", normURL(wantDoc), normURL(loads[1]), fmt.Sprintf("root %q -> %q; there ref %q: loader was asked for %q, RFC 3986 resolution against the containing document gives %q", cs.Base, firstDoc, cs.Ref, loads[1], wantDoc))
+	}
+	return
+}
+
 func c12Run(c *Ctx) {
-	dirSegs := []string{"a", "b.c", ".", "..", "a%20b", "é", "%41", "a%2Fb"}
-	files := []string{"f.json", "b.c", "a%20b.json", "é.json", "%41.json", "a%2Fb.json"}
+	dirSegs := []string{"a", "b.c", ".", "..", "a%20b", "é", "%41", "a%2Fb", "a%2520b"}
+	files := []string{"f.json", "b.c", "a%20b.json", "é.json", "%41.json", "a%2Fb.json", "100%25.json", "a%2541.json"}
 	maxDirs := 2
 	if !c.Quick() {
 		maxDirs = 3
@@ -134,6 +213,10 @@ func c12Run(c *Ctx) {
 		}
 	}
 	bases = append(bases, "file:///d1/a%20b/base.json", "http://h.example/é/base.json")
+	// remote documents whose URL has an empty path or is a bare directory-less name
+	bases = append(bases, "http://h.example", "https://h.example:8443", "http://h.example/base")
+	// first hops of the two-hop cases: another directory, the parent directory, another site, the same path on another site
+	vias := []string{"sub/first.json", "../first.json", "http://other.example/x/first.json", "http://other.example/base.json", "http://other.example/d1/d2/base.json"}
 	n := 0
 	for _, dp := range dirPaths {
 		for _, f := range files {
@@ -146,6 +229,33 @@ func c12Run(c *Ctx) {
 			c.Res.States++
 			rel := dp + f
 			refs := []string{rel, "/" + rel, "file:///" + rel, "http://other.example/" + rel, "https://h.example:8443/" + rel}
+			// two hops: the reference, written relative or root-relative, inside a document reached through via
+			for _, via := range vias {
+				for _, r := range []string{rel, "/" + rel} {
+					for bi, b := range bases {
+						if bi%4 != 2 && bi < 16 {
+							continue // depth 2 of each site, and all the special bases
+						}
+						for _, elem := range []string{"", "parameter", "response"} {
+							if elem != "" && dp != "" && !strings.HasPrefix(dp, "../") && dp != "a/" {
+								continue // imported parameters / responses: files of the same, a sub- and the parent directory
+							}
+							cs := c12Case{Base: b, Ref: r + "#/definitions/x", Via: via, Elem: elem}
+							o := c12Exec(c, cs)
+							c.Res.Evaluations++
+							c.Res.Transitions += 2
+							if o == "ok" {
+								c.Res.Nontrivial++
+							}
+							c.Outcome("two-hops:" + o)
+							n++
+							if n%30000 == 7 {
+								c.Sample(cs)
+							}
+						}
+					}
+				}
+			}
 			for _, r := range refs {
 				for _, frag := range []string{"", "#/definitions/x", "#"} {
 					for _, b := range bases {
@@ -181,7 +291,7 @@ func c12Run(c *Ctx) {
 func init() {
 	register(&CheckDef{
 		ID: "C12", Build: "light", Run: c12Run, RunCase: c12RunCase,
-		Rule:        "states = every reference made of 0..k directory segments from {a, b.c, ., .., a%20b, é, %41, a%2Fb} and a file segment, written relative, root-relative or absolute (file, http, https), with no fragment, a pointer fragment or an empty fragment, against file / http / https / file-with-host bases of depth 0..3; observation = the first URL handed to the document loader by ExpandSchemaWithBasePath on {\"$ref\": ref}; oracle = net/url RFC 3986 resolution of the reference against the base with the fragment removed, compared after section 6.2.2 normalisation; non-trivial = reference with at least one directory segment",
+		Rule:        "states = every reference made of 0..k directory segments from {a, b.c, ., .., a%20b, é, %41, a%2Fb, a%2520b} and a file segment (among them 100%25.json and a%2541.json), written relative, root-relative or absolute (file, http, https), with no fragment, a pointer fragment or an empty fragment, against file / http / https / file-with-host bases of depth 0..3 and remote bases with an empty path; the same references placed in a document reached through a first reference (another directory, the parent directory, another site, the same path on another site) and resolved against that document, as a schema and as the schema of an imported parameter / response; observation = the first URL handed to the document loader by ExpandSchemaWithBasePath on {\"$ref\": ref}; oracle = net/url RFC 3986 resolution of the reference against the base with the fragment removed, compared after section 6.2.2 normalisation; non-trivial = reference with at least one directory segment",
 		Assumptions: []string{"net/url.ResolveReference is the RFC 3986 oracle (independent of the library's own path arithmetic)", "references whose last segment is a directory (., .., trailing slash), empty segments, queries and network-path references are outside the statement and not generated"},
 		MinOutcomes: 1,
 	})
